@@ -80,8 +80,8 @@ CHECKS = {
          "DESIGN.md §4 C13"),
  "C12": ("model_checking",
          "explicit-state BFS over partial-signature event histories on the real DSS object (successor = replay on a fresh instance), lock-step accepted-set model, math/big reference signature",
-         "n=3,4 (thorough ..5), every t, at every participant: all histories up to depth n+2 over {own PartialSig, valid partial of each other signer, value+1 re-signed, signature bit-flipped, own partial echoed back, partial of another session / another message / with replaced session id / with index n, n+1, 2^32-1 and the receiver's own index}. After every transition: accepted <=> first valid partial of this session; EnoughPartialSig <=> |accepted| >= t; Signature() fails below t and otherwise equals R || (k + H(R,A,m)x) computed independently, verifying under dss.Verify, eddsa.Verify and crypto/ed25519.Verify, identical across states, orders and participants.",
-         "Trusted: distributed keys are built from seeded polynomials through the DistKeyShare interface (DKG-produced keys are covered by C11); merged states assume the accepted set determines the future.",
+         "n=3,4 (thorough ..5), every t, at every participant, keys from seeded polynomials and from all-honest runs of the Pedersen (regular, fast-sync) and Rabin DKG implementations: all histories up to depth n+2 over {own PartialSig, valid partial of each other signer, value+1 re-signed, signature bit-flipped, own partial echoed back, partial of another session / another message / with replaced session id / with index n, n+1, 2^32-1 and the receiver's own index}. After every transition: accepted <=> first valid partial of this session; EnoughPartialSig <=> |accepted| >= t; Signature() fails below t and otherwise equals R || (k + H(R,A,m)x) computed independently, verifying under dss.Verify, eddsa.Verify and crypto/ed25519.Verify, identical across states, orders and participants.",
+         "Trusted: seeded randomness; merged states assume the accepted set determines the future.",
          "DESIGN.md §4 C12"),
  "C14": ("model_checking",
          "exhaustive enumeration of predicate trees of a bounded grammar x variable-sharing patterns x proven branch x truth patterns x falsifications and transcript mutations on the real prover/verifier; lock-step clique harness for the deniable protocol",
